@@ -8,8 +8,8 @@ implement `EventCapturer`).  All theorems quantify over the oracle.
 
 Transcribed Go functions (file `vxfw/vxfw.go`):
 `App.handleCommand`, `focusHandler.focusWidget`, `focusHandler.handleEvent`,
-`focusHandler.updatePath` / `childHasFocus`, `hitTest`, `SubSurface.containsPoint`,
-`mouseHandler.handleEvent` / `update` / `mouseExit`, the child sort in `Surface.render`,
+`focusHandler.updatePath` / `findPath` / `childHasFocus`, `hitTest`, `SubSurface.containsPoint`,
+`mouseHandler.handleEvent` / `update` / `mouseExit` / `mouseEnter`, the child sort in `Surface.render`,
 and the event switch / frame step of `App.Run`.
 
 Deviations (all argued in notes/C15.md):
@@ -112,6 +112,9 @@ structure St where
   focused : Id
   root : Id
   path : List Id
+  /-- `focusHandler.lastFrame`: the surface the path is computed from (`none` = the zero `Surface`
+  before the first frame: no widget, no children). -/
+  fhFrame : Option STree := none
   lastFrame : STree := .node 0 0 0 []
   lastHits : List Hit := []
   mouse : Option (Int × Int) := none
@@ -129,14 +132,50 @@ def St.log (s : St) (e : Entry) : St := { s with trace := s.trace ++ [e] }
 def call (o : Oracle) (s : St) (w : Id) (ev : Ev) (ph : Phase) : St × Cmd :=
   ({ s with calls := s.calls + 1, trace := s.trace ++ [.call w ev ph] }, o.h w ev ph s.calls)
 
+/-! ### `findPath` / `childHasFocus` -/
+
+mutual
+/-- `childHasFocus`: the elements appended to `f.path` (target first), or `none` for `false`. -/
+def childHasFocus (f : Id) : STree → Option (List Id)
+  | .node i _ _ ch => if i = f then some [i] else (childHasFocusL f ch).map (· ++ [i])
+def childHasFocusL (f : Id) : List Kid → Option (List Id)
+  | [] => none
+  | (_, _, _, t) :: r =>
+    match childHasFocus f t with
+    | some p => some p
+    | none => childHasFocusL f r
+end
+
+/-- `childHasFocus(f.lastFrame)` (the zero `Surface` has a nil widget and no children). -/
+def frameHasFocus (s : St) : Option (List Id) :=
+  match s.fhFrame with
+  | none => none
+  | some t => childHasFocus s.focused t
+
+/-- Is the root surface of the last frame the root widget's (`f.root != f.lastFrame.Widget`)? -/
+def frameRootIsRoot (s : St) : Bool :=
+  match s.fhFrame with
+  | none => false
+  | some t => decide (s.root = t.id)
+
+/-- The value `focusHandler.findPath` leaves in `f.path`: what `childHasFocus` appended (target
+first), the root widget appended if the root surface is another widget's or nothing was found,
+reversed. -/
+def foundPath (s : St) : List Id :=
+  let p := (frameHasFocus s).getD []
+  (if !frameRootIsRoot s || p.isEmpty then p ++ [s.root] else p).reverse
+
+/-- `focusHandler.findPath`: new path and whether the focused widget is in the last frame. -/
+def findPath (s : St) : St × Bool :=
+  ({ s with path := foundPath s }, (frameHasFocus s).isSome)
+
 /-- `focusHandler.focusWidget`, with the re-entrant `app.handleCommand` abstracted as `hc`. -/
 def focusWidgetWith (hc : St → Cmd → St) (o : Oracle) (s : St) (w : Id) : St :=
   if s.focused = w then s else
   let r1 := call o s s.focused .focusOut .target
-  let s2 := hc r1.1 r1.2
-  let s3 := { s2 with focused := w, trace := s2.trace ++ [.eff (.focusSet w)] }
-  let r4 := call o s3 w .focusIn .target
-  hc r4.1 r4.2
+  let s2 := (findPath { r1.1 with focused := w, trace := r1.1.trace ++ [.eff (.focusSet w)] }).1
+  let r3 := call o s2 w .focusIn .target
+  hc (hc r3.1 r1.2) r3.2
 
 /-- One arm of the type switch in `App.handleCommand`. -/
 def execAtom (hc : St → Cmd → St) (o : Oracle) (s : St) : Atom → St
@@ -195,30 +234,12 @@ def dispatch (o : Oracle) (fuel : Nat) (chain : List Id) (tgt : St → Id) (ev :
 def handleEvent (o : Oracle) (fuel : Nat) (s : St) (ev : Ev) : St :=
   dispatch o fuel s.path (fun s => s.focused) ev s
 
-/-! ### `updatePath` / `childHasFocus` -/
-
-mutual
-/-- `childHasFocus`: the elements appended to `f.path` (target first), or `none` for `false`. -/
-def childHasFocus (f : Id) : STree → Option (List Id)
-  | .node i _ _ ch => if i = f then some [i] else (childHasFocusL f ch).map (· ++ [i])
-def childHasFocusL (f : Id) : List Kid → Option (List Id)
-  | [] => none
-  | (_, _, _, t) :: r =>
-    match childHasFocus f t with
-    | some p => some p
-    | none => childHasFocusL f r
-end
-
-def updatePathFinish (s : St) (t : STree) : St :=
-  let p := if s.root ≠ t.id ∨ s.path.isEmpty then s.path ++ [s.root] else s.path
-  { s with path := p.reverse }
+/-! ### `updatePath` -/
 
 /-- `focusHandler.updatePath`. -/
 def updatePath (o : Oracle) (fuel : Nat) (s : St) (t : STree) : St :=
-  let s := { s with path := [] }
-  match childHasFocus s.focused t with
-  | some p => updatePathFinish { s with path := p } t
-  | none => updatePathFinish (focusWidget o fuel s s.root) t
+  let r := findPath { s with fhFrame := some t }
+  if r.2 then r.1 else focusWidget o fuel r.1 s.root
 
 /-! ### hit testing -/
 
@@ -265,6 +286,12 @@ def mouseExit (o : Oracle) (fuel : Nat) (s : St) : St :=
   let s1 := s.lastHits.foldl (fun s h => notify o fuel s h.w .mouseLeave) s
   { s1 with lastHits := [] }
 
+/-- `mouseHandler.mouseEnter` (the `vaxis.FocusIn` arm of `Run` calls it with the root widget):
+nothing if the widget is in the hit list, else it is recorded (zero coordinates) and notified. -/
+def mouseEnter (o : Oracle) (fuel : Nat) (s : St) (w : Id) : St :=
+  if s.lastHits.any (fun h => h.w == w) then s
+  else notify o fuel { s with lastHits := s.lastHits ++ [⟨0, 0, w⟩] } w .mouseEnter
+
 /-- `mouseHandler.handleEvent`. -/
 def mouseHandleEvent (o : Oracle) (fuel : Nat) (s : St) (col row : Int) : St :=
   let s1 := mouseUpdate o fuel { s with mouse := some (col, row) } s.lastFrame
@@ -300,7 +327,7 @@ inductive RunEv where
 def runEvent (o : Oracle) (fuel : Nat) (s : St) : RunEv → St
   | .resize => { s with redraw := true }
   | .mouse c r => mouseHandleEvent o fuel s c r
-  | .focusIn => notify o fuel s s.root .mouseEnter
+  | .focusIn => mouseEnter o fuel s s.root
   | .focusOut => mouseExit o fuel { s with mouse := none }
   | .key k => handleEvent o fuel s (.key k)
   | .redraw => { s with redraw := true }
